@@ -104,8 +104,16 @@ def run(ctx: Ctx) -> None:
         stores = [n for n in walk_no_nested(f.node) if isinstance(n, ast.Name) and n.id in names and isinstance(n.ctx, ast.Store)]
         if not stores:
             continue
-        ctx.check(f.qualname in GLOBAL_ALLOWED, "R-C11.1", f"{f.qualname}#rebinds-global({','.join(sorted(names))})", f.where,
-                  {"globals": sorted(names), "reviewed": GLOBAL_ALLOWED.get(f.qualname)},
+        reviewed = GLOBAL_ALLOWED.get(f.qualname)
+        if reviewed is None and names == {"EXPERIMENTAL_FEATURES_ENABLED"}:
+            # the gate flag: any writer that is part of the enable/disable switch protocol (C33 R-C33.3 interprets that protocol
+            # with all of its helpers: set on construction, previous value restored on exit)
+            from . import c33_semantic
+            _w, _allowed = c33_semantic.flag_writers(idx)
+            if f.qualname in _allowed:
+                reviewed = "gate flag, written only as part of the paired switch protocol (C33 R-C33.3)"
+        ctx.check(reviewed is not None, "R-C11.1", f"{f.qualname}#rebinds-global({','.join(sorted(names))})", f.where,
+                  {"globals": sorted(names), "reviewed": reviewed},
                   "a module global is rebound at run time outside the reviewed places: it persists for the rest of the session")
 
     # ------------------------------------------------------------ (c) singletons
